@@ -134,7 +134,7 @@ class Ids:
         return self.n
 
 
-EV_LETTERS = "NRQFTLXVK"
+EV_LETTERS = "NRBQFTLXVK"
 
 
 def ev_letter(ch, ids):
@@ -142,7 +142,10 @@ def ev_letter(ch, ids):
     if ch == "N":
         return ["act", ["enq", [ids(), [], False]]]                                   # plain callable
     if ch == "R":
-        return ["act", ["enq", [ids(), [], True]]]                                    # raising callable
+        return ["act", ["enq", [ids(), [], 1]]]                                       # callable raising an Exception
+    if ch == "B":
+        i = ids()
+        return ["act", ["enq", [i, [], 2 + i % 4]]]                                   # ... SystemExit / KeyboardInterrupt / GeneratorExit / BaseException subclass
     if ch == "Q":
         return ["act", ["enq", [ids(), [["enq", [ids(), [], False]]], False]]]        # enqueues more work
     if ch == "F":
@@ -177,14 +180,46 @@ def rand_script(rng, ids, depth):
         elif k < 0.9:
             acts.append(["flush", ids()] + ([[rand_script(rng, ids, 0)]] if rng.random() < 0.4 else []))
         else:
-            acts.append(["enq", [ids(), [], rng.random() < 0.3]])
-    return [ids(), acts, rng.random() < 0.3]
+            acts.append(["enq", [ids(), [], rng.choice([0, 0, 1, 2, 5])]])
+    return [ids(), acts, rng.choice([0, 0, 0, 0, 0, 1, 1, 2, 3, 4, 5])]
+
+
+def ev_raise_family(ctx):
+    """one batch of n callables, the one at position pos raises (every kind, every position); the others are plain,
+    enqueue more work, call flush or raise an ordinary Exception; optionally a flush is outstanding and a second batch
+    follows"""
+    out = []
+    for n in range(1, ctx.n(4, 6) + 1):
+        for pos in range(n):
+            for kind in (1, 2, 3, 4, 5):
+                for flavour in range(4):
+                    ids = Ids()
+                    prog = []
+                    if flavour == 2:
+                        prog.append(["act", ["flush", ids()]])
+                    for k in range(n):
+                        if k == pos:
+                            acts = [["enq", [ids(), [], 0]]] if flavour == 1 else []
+                            prog.append(["act", ["enq", [ids(), acts, kind]]])
+                        elif flavour == 1:
+                            prog.append(["act", ["enq", [ids(), [["enq", [ids(), [], 0]]], 0]]])
+                        elif flavour == 2:
+                            prog.append(["act", ["enq", [ids(), [["flush", ids()]], 0]]])
+                        elif flavour == 3:
+                            prog.append(["act", ["enq", [ids(), [], 1 if k % 2 else 0]]])
+                        else:
+                            prog.append(["act", ["enq", [ids(), [], 0]]])
+                    prog.append(["turn"])
+                    if flavour in (1, 2):
+                        prog += [["act", ["flush", ids()]], ["act", ["enq", [ids(), [], 0]]], ["turn"]]
+                    out.append(prog)
+    return out
 
 
 def ev_programs(ctx):
-    out = []
+    out = ev_raise_family(ctx)
     maxlen = ctx.n(4, 5)
-    letters = EV_LETTERS if ctx.tier == "thorough" else "NRQFTLK"
+    letters = EV_LETTERS if ctx.tier == "thorough" else "NRBQFTLK"
     for n in range(1, maxlen + 1):
         for w in itertools.product(letters, repeat=n):
             if "T" not in w and n > 2:
@@ -298,8 +333,53 @@ def pr_random(rng):
     return prog
 
 
-def pr_programs(ctx):
+def pr_chain_family(ctx):
+    """p0 -> p1 -> ... -> ph (1..3 hops of resolve-with-an-unresolved-promise, performed in every order), ph finally
+    resolved with a value or a Failure; a send/sendOnly to p0 (thorough: also to the inner promises) in every subset of
+    the gaps between those steps; no turns / a turn in every gap / a turn in some gaps.  Send order must be delivery order."""
     out = []
+    thorough = ctx.tier == "thorough"
+    for h in (1, 2, 3):
+        steps = [["resolve", i, ["prom", i + 1]] for i in range(h)]
+        finals = [["resolve", h, ["val", 5]]] + ([["resolve", h, ["fail", 6]]] if thorough or h < 3 else [])
+        for final in finals:
+            for order in itertools.permutations(steps + [final]):
+                nslots = len(order) + 1
+                for mask in range(1, 2 ** nslots):
+                    if bin(mask).count("1") < 2 and not thorough:
+                        continue
+                    for turns in (0, 1, 2):
+                        if turns == 2:
+                            tm = ctx.rng.randrange(1, 2 ** nslots)
+                        else:
+                            tm = 0 if turns == 0 else 2 ** nslots - 1
+                        if h == 3 and not thorough and turns == 1 and mask % 3:
+                            continue
+                        prog = [["new"] for _ in range(h + 1)]
+                        mid = 0
+                        for slot in range(nslots):
+                            if mask >> slot & 1:
+                                mid += 1
+                                tgt = 0
+                                if thorough and ctx.rng.random() < 0.25:
+                                    tgt = ctx.rng.randrange(h + 1)
+                                if mid % 2:
+                                    prog.append(["send", tgt, mid, ["ret", 40 + mid]])
+                                else:
+                                    prog.append(["sendonly", tgt, mid, ["ret", 40 + mid]])
+                                if ctx.rng.random() < 0.3:
+                                    mid += 1
+                                    prog.append(["sendonly", tgt, mid, ["raise", 60 + mid]])
+                            if tm >> slot & 1:
+                                prog.append(["turn"])
+                            if slot < len(order):
+                                prog.append(order[slot])
+                        out.append(prog)
+    return out
+
+
+def pr_programs(ctx):
+    out = pr_chain_family(ctx)
     maxlen = ctx.n(3, 4)
     for n in range(1, maxlen + 1):
         for wd in itertools.product(PR_LETTERS, repeat=n):
